@@ -89,6 +89,10 @@ OpLeave(m, s) ==
   IF s \notin SeatIds(m) THEN R(m, "ErrNotFoundSeat")
   ELSE IF m.seat[s].player = NULL THEN R(m, "ErrEmptySeat")
   ELSE R([m EXCEPT !.seat[s].player = NULL, !.seat[s].reserved = FALSE], "")
+\* Reset: every seat becomes a fresh, empty, active, non-reserved seat.  The Go code replaces the Seat OBJECTS and leaves
+\* its dealer / small blind / big blind pointers on the old ones; every later use goes through the seat's ID, so the
+\* positions stay where they were (deviation ResetKeepsPositions)
+OpReset(m) == R([m EXCEPT !.seat = [s \in SeatIds(m) |-> [player |-> NULL, active |-> TRUE, reserved |-> FALSE]]], "")
 OpNext(m) ==
   LET nd == NextDealer(m) IN
   IF nd.d = NULL THEN R(nd.m, "ErrInsufficientNumberOfPlayers")
